@@ -266,6 +266,7 @@ def _one(inp: Dict[str, Any], pids: PayloadIds, t0: float, opts: Dict[str, Any],
             reload_between=bool(opts.get("reload", False)) and bool(inp.get("reload", True)),
             via_subgraphs=bool(inp.get("via_subgraphs")),
             default_recursion_limit=bool(inp.get("giant")),
+            probe_names=bool(inp.get("probe_names")),
         )
         dt = time.time() - t0
         case = _compact_case(beh, opts.get("stages", True), opts.get("events", False))
